@@ -109,7 +109,7 @@ func (j *jsonBuilder) mergeEntities(left *astjson.Value, rightResult resultData)
 // positions recorded in the index map; otherwise every entity takes part and mergeWithPath applies.
 func (j *jsonBuilder) mergeRequiredFields(base *astjson.Value, result resultData) error {
 	if result.entityIndexMap == nil || len(result.responsePath) != 2 {
-		return j.mergeWithPath(base, result.response, result.responsePath)
+		return j.mergeWithPath(base, result.response, result.responsePath, nil)
 	}
 
 	resolvedValues := result.response.GetArray(resolveResponsePath)
@@ -130,7 +130,10 @@ func (j *jsonBuilder) mergeRequiredFields(base *astjson.Value, result resultData
 }
 
 // mergeWithPath merges a JSON value with a resolved value by its path.
-func (j *jsonBuilder) mergeWithPath(base *astjson.Value, resolved *astjson.Value, path ast.Path) error {
+//
+// When positions is not nil and the path starts at a list, only the items of that list at the given
+// positions take part: the entities of one type among the _entities of a mixed lookup.
+func (j *jsonBuilder) mergeWithPath(base *astjson.Value, resolved *astjson.Value, path ast.Path, positions entityIndexMap) error {
 	if len(path) == 0 {
 		return errors.New("path is empty")
 	}
@@ -151,6 +154,15 @@ func (j *jsonBuilder) mergeWithPath(base *astjson.Value, resolved *astjson.Value
 	switch current.Type() {
 	case astjson.TypeArray:
 		arr := current.GetArray()
+		if positions != nil {
+			selected := make([]*astjson.Value, 0, len(positions))
+			for _, index := range positions {
+				if index < len(arr) {
+					selected = append(selected, arr[index])
+				}
+			}
+			arr = selected
+		}
 		values, err := j.flattenList(arr, searchPath[1:])
 		if err != nil {
 			return err
